@@ -134,11 +134,15 @@ def gen_tree(rng, maxbody=8, maxdof=40, frames=True, tendons=True, p=None):
         elif pi == 0 and rng.random() < p["free"] and room >= 6:
             jl = ["free"]
         else:
-            nj = rng.choice((1, 1, 1, 2, 2, 3))
+            # MuJoCo rules: at most 6 dofs per body, no rotational joint (hinge / ball) after a ball
+            nj = rng.choice((1, 1, 1, 2, 2, 3, 4))
             for _ in range(nj):
                 jt = rng.choice(("hinge", "hinge", "hinge", "slide", "slide", "ball"))
+                if "ball" in jl and jt != "slide":
+                    jt = "slide"
                 need = 3 if jt == "ball" else 1
-                if room - sum(3 if x == "ball" else 1 for x in jl) >= need:
+                used = sum(3 if x == "ball" else 1 for x in jl)
+                if room - used >= need and used + need <= 6:
                     jl.append(jt)
         simple_candidate = rng.random() < 0.35     # joints at the body origin with aligned axes, identity inertial frame
         for jt in jl:
